@@ -10,6 +10,7 @@
 #include <unistd.h>
 #include <fcntl.h>
 #include <sys/mman.h>
+#include <pthread.h>
 #include "qlibc.h"
 #include "vfc.h"
 #include "ref_hash.h"
@@ -84,6 +85,35 @@ static void cell(size_t len, int align, int cls) {
     vf_distinct("distinct", (uint64_t)((len * 8 + (size_t)align) * 8 + (size_t)cls) + 1);
 }
 
+/* "a pure function of exactly the given bytes": four threads hash different buffers and files at the same time (hidden static state would mix them up) */
+typedef struct { int id; char path[160]; unsigned char *content; size_t n; int bad; } pw_t;
+static pthread_barrier_t PBAR;
+static void *pure_worker(void *arg) {
+    pw_t *w = arg; unsigned char want[16], got[16], w128[16], g128[16]; ref_md5(w->content, w->n, want); ref_murmur3_128(w->content, w->n, w128);
+    uint32_t m32 = ref_murmur3_32(w->content, w->n), f32 = ref_fnv1_32(w->content, w->n); uint64_t f64 = ref_fnv1_64(w->content, w->n);
+    pthread_barrier_wait(&PBAR);
+    for (int round = 0; round < 12; round++) {
+        memset(got, 0, 16); if (!qhashmd5_file(w->path, 0, 0, got) || memcmp(got, want, 16)) w->bad |= 1;
+        memset(got, 0, 16); if (!qhashmd5(w->content, w->n, got) || memcmp(got, want, 16)) w->bad |= 2;
+        memset(g128, 0, 16); if (!qhashmurmur3_128(w->content, w->n, g128) || memcmp(g128, w128, 16)) w->bad |= 4;
+        if (qhashmurmur3_32(w->content, w->n) != m32 || qhashfnv1_32(w->content, w->n) != f32 || qhashfnv1_64(w->content, w->n) != f64) w->bad |= 8;
+    }
+    return NULL;
+}
+static void concurrent_purity(long caseno) {
+    enum { NT = 4 }; pw_t W[NT]; pthread_t th[NT];
+    vf_case_begin(caseno, "4 threads hashing different buffers and files concurrently");
+    pthread_barrier_init(&PBAR, NULL, NT);
+    for (int i = 0; i < NT; i++) { W[i].id = i; W[i].bad = 0; W[i].n = 300000 + (size_t)i * 4099; W[i].content = hm_alloc(W[i].n); fill(W[i].content, W[i].n, i % 5 == 1 ? 0 : 0); for (size_t k = 0; k < W[i].n; k += 97) W[i].content[k] ^= (unsigned char)(i * 37 + 1);
+        snprintf(W[i].path, sizeof W[i].path, "h_hash-par-%d-%d-%d.bin", VF.shard, (int)getpid(), i);
+        int fd = open(W[i].path, O_WRONLY | O_CREAT | O_TRUNC, 0600); if (fd < 0 || write(fd, W[i].content, W[i].n) != (ssize_t)W[i].n) { fprintf(stderr, "h_hash: cannot write %s\n", W[i].path); exit(2); } close(fd); }
+    for (int i = 0; i < NT; i++) pthread_create(&th[i], NULL, pure_worker, &W[i]);
+    for (int i = 0; i < NT; i++) pthread_join(th[i], NULL);
+    for (int i = 0; i < NT; i++) { if (W[i].bad) { static const char *FN[] = {"qhashmd5_file", "qhashmd5", "qhashmurmur3_128", "qhashmurmur3_32/fnv"}; for (int b = 0; b < 4; b++) if (W[i].bad >> b & 1) { char key[80]; snprintf(key, sizeof key, "not-pure-under-concurrency:%s", FN[b]); vf_viol("C18", key, "thread %d: %s returned a digest that is not that of its own bytes while other threads were hashing other data", i, FN[b]); } }
+        unlink(W[i].path); hm_free(W[i].content); }
+    pthread_barrier_destroy(&PBAR);
+    vf_count("evaluations", NT * 12 * 6); vf_count("concurrent_hash_rounds", NT * 12); vf_distinct("distinct", VF_H0 + 777001);
+}
 static void file_ranges(long caseno) {
     static const size_t SIZES[] = {0, 1, 32 * 1024 - 1, 32 * 1024, 32 * 1024 + 1, 100 * 1024};
     char path[128]; snprintf(path, sizeof path, "h_hash-%d-%d.bin", VF.shard, (int)getpid());
@@ -152,6 +182,8 @@ int main(int argc, char **argv) {
     }
     if (vf_mine(caseno)) { rng_seed(&R, VF.seed, (uint64_t)caseno); file_ranges(caseno); }
     caseno++;
+    if (vf_mine(caseno)) concurrent_purity(caseno);
+    caseno++;
     /* "every length": one buffer longer than 4 GiB (lengths that do not fit 32 bits); thorough tier only, mostly untouched zero pages */
     if (vf_arg_long("huge", 0) && vf_mine(caseno)) {
         size_t len = ((size_t)1 << 32) + 5; vf_case_begin(caseno, "huge buffer of %zu bytes (MD5)", len);
@@ -162,6 +194,14 @@ int main(int argc, char **argv) {
             vf_cpu_arm("qhashmd5", 600000); bool ok = qhashmd5(m, len, got); vf_cpu_disarm(); ref_md5(m, len, want);
             if (!ok || memcmp(got, want, 16)) vf_viol("C18", "wrong-hash:qhashmd5:huge", "qhashmd5 of a %zu-byte buffer differs from the reference (%s)", len, vf_hex(got, 16));
             vf_count("evaluations", 1); vf_count("huge_buffers", 1); vf_max("max_length", (long)len); vf_distinct("distinct", VF_H0 + 999331);
+            /* ... and the Murmur functions on 2^31+1 bytes of the same region (block counts and offsets that do not fit an int) */
+            size_t l2 = ((size_t)1 << 31) + 1; m[l2 - 1] = 0x5b; unsigned char g128[16], w128[16]; memset(g128, 0, 16);
+            vf_case_begin(caseno, "huge buffer of %zu bytes (Murmur3)", l2);
+            vf_cpu_arm("qhashmurmur3", 600000); uint32_t g32 = qhashmurmur3_32(m, l2); bool ok128 = qhashmurmur3_128(m, l2, g128); vf_cpu_disarm();
+            uint32_t w32 = ref_murmur3_32(m, l2); ref_murmur3_128(m, l2, w128);
+            if (g32 != w32) vf_viol("C18", "wrong-hash:qhashmurmur3_32:huge", "qhashmurmur3_32 of a %zu-byte buffer is %08x, reference %08x", l2, g32, w32);
+            if (!ok128 || memcmp(g128, w128, 16)) vf_viol("C18", "wrong-hash:qhashmurmur3_128:huge", "qhashmurmur3_128 of a %zu-byte buffer differs from the reference", l2);
+            vf_count("evaluations", 2); vf_count("huge_buffers", 2);
             munmap(m, len + 4096); }
     }
     return vf_finish() ? 1 : 0;
